@@ -234,6 +234,7 @@ type VC struct {
 	defs         map[string]string
 	inlineCount  int
 	replayBounds []string
+	lemmaName    string
 	wrap         bool // math sort with exact modular semantics for + - * and conversions
 	specArith    int
 	boxOrigin    map[string]*Val
@@ -287,6 +288,9 @@ func (x *VC) addObl(kind, label, pos, guard, cond string) *Oblig {
 		// trivially discharged; still count it so the obligation list is stable
 	}
 	base := fmt.Sprintf("%s/%s", fnKeyShort(x.fn), kind)
+	if x.lemmaName != "" {
+		base = "lemma"
+	}
 	if label != "" {
 		base += "[" + label + "]"
 	}
